@@ -160,6 +160,24 @@ PROPS = {
         "assumptions": ["chunk signatures are not verified by the decoder (by design); malformed = what the framing grammar can observe"],
         "timeout": {"quick": 900, "thorough": 3000},
     },
+    "C16": {
+        "title": "Path-style and virtual-host-style addressing reach the same bucket and key",
+        "harness": "c16",
+        "model": "Model/Routing.v route (split_path, rewrite, host_bucket, match_bucket / effective_path)",
+        "rule": "400 (quick) / 6000 (thorough) seeded logical requests over the routed surface (bucket create/head/delete, object "
+                "put/get/range/head/delete, list V1/V2, versions, location, versioning, multi-delete, copy, multipart initiate / part / "
+                "list-parts / abort, unknown methods; 2 buckets x 6 keys incl. spaces, UTF-8, dots, nesting), each sent to 11 twin "
+                "memory-backed servers with identical histories: path-style; host-bucket; host-bucket-base with one base and with two "
+                "bases (first / second base, configured with stray dots and a port); fall-backs (localhost, the base itself, a "
+                "multi-label prefix, an unrelated host); path-style with an extra leading and with a trailing slash. A recording "
+                "backend wrapper reports the bucket/key each handler addressed. distinct_nontrivial = distinct (variant, method, "
+                "sub-resource, bucket, key).",
+        "explanation": "Theorems: the routed (bucket, object) of a host-style request equals that of the path-style request for every "
+                       "bucket label, key path and base list; unmatched hosts fall back unchanged; extra slashes do not change the "
+                       "address. Tie: recorded backend addresses of the Go handlers vs the extracted router; spec oracle: canonical "
+                       "response equals the path-style twin's response.",
+        "assumptions": ["Location of CompleteMultipartUpload, request ids and timestamps are excluded from the response comparison"],
+    },
 }
 
 # properties whose check is not built yet are listed so the manifest stays honest
